@@ -192,7 +192,7 @@ class Tasker(registering.StoriedRegistrar):
                     self.desire = ABORT
                     self.status = ABORTED
                     console.profuse("     Aborting Tasker {0}, bad control = {1}\n".format(
-                        self.name,  CommandNames[control]))
+                        self.name,  ControlNames.get(control, 'Unknown')))
                     break #break out of while loop. this will cause stopIteration
 
                 self.stamp = self.store.stamp
